@@ -15,6 +15,9 @@ import time
 sys.path.insert(0, os.path.dirname(os.path.abspath(__file__)))
 import common as C
 
+# pinned environment (explicit, not inherited); the check switches TZ itself per stream
+os.environ["TZ"] = "UTC"
+os.environ["PYTHONINTMAXSTRDIGITS"] = "4300"
 C.reexec_under_impl_python()
 import parse_common as PC
 
@@ -38,6 +41,14 @@ def m_second_ampm(payload):
     if not (payload.get("kind", "").startswith("fuzzy_conservative") and isinstance(inp, dict)):
         return False
     if PC.ampm_word_count(inp.get("s", "")) < 2:
+        return False
+    # ... and the two results differ ONLY by the second word's hour adjustment: same date, minute, second,
+    # microsecond, fold, warning and zone; hours 12 apart (pm adds 12 below 12, am turns 12 into 0)
+    st, fz = payload.get("impl_strict"), payload.get("impl_fuzzy")
+    if not (st and fz and st[0] == "ok" and fz[0] == "ok"):
+        return False
+    d1, d2 = list(st[1]), list(fz[1])
+    if not (d1[:3] == d2[:3] and d1[4:] == d2[4:] and abs(d1[3] - d2[3]) == 12 and list(st[2:5]) == list(fz[2:5])):
         return False
     return PC.model_strict_clash(PC.opts_from_json(inp.get("opts")), inp["s"])
 
@@ -215,13 +226,8 @@ def local_matches(o, sem):
     if eff in ("Z", "z") or (eff is None and off == 0):
         eff = "UTC"
     y, mo, d = o["default"][:3]
-    dtv = _dt.datetime(y, mo, d, h, mi, tzinfo=tz.tzlocal())
-    try:
-        return dtv.tzname() == eff, dtv.replace(fold=1).tzname() == eff
-    except OverflowError:
-        # tz.tzlocal cannot serve this wall time (Local.tzlocal_raises); the table's answer does not
-        # depend on the bits then (F-C15-tzlocal-range)
-        return True, False
+    # from the `time` module only (parse_common.local_tzname_bits), not from dateutil's tz.tzlocal
+    return PC.local_tzname_bits((y, mo, d, h, mi, 0, 0), eff)
 
 
 # ---------------------------------------------------------------------------- stream 4: fuzzy
@@ -333,6 +339,7 @@ def main():
     def note(kind):
         hist[kind] = hist.get(kind, 0) + 1
 
+    PC.set_tz("UTC")
     # regression corpus first
     reg = os.path.join(C.VERIF, "corpus", "regressions", CID + ".jsonl")
     if os.path.exists(reg):
@@ -344,6 +351,7 @@ def main():
                 note("regression")
 
     # ---- stream 1: default fill-in vs spec_fill
+    PC.set_tz("UTC")
     r = C.rng("C15-fill")
     fills = [gen_fill(r) for _ in range(6000 * scale)]
     spec = orc.call_many([(E_FILL, fill_args(f, o["default"])) for (o, s, f) in fills])
@@ -478,6 +486,10 @@ def main():
                                "input": {"s": s, "opts": o}, "impl": a, "model": b}, concrete=False)
     orc.close()
 
+    for key in ["fill", "fuzzy-sentence", "fuzzy-relations"] + ["zone/" + z for z in TZ_SETTINGS]:
+        if hist.get(key, 0) == 0:
+            verdict.violation({"kind": "stream %r evaluated no case (broken generator or oracle entry)" % key,
+                               "input": None}, concrete=False)
     if not props["ok"] and not verdict.violations:
         verdict.violation({"kind": "broken proof obligation", "theorem_file": "coq/props/C15.v",
                            "theorems": props["theorems"], "discharged": props["discharged"],
@@ -491,16 +503,33 @@ def main():
                 "weekday) x 13 defaults incl. days 29-31, 9999-12-27/31, non-trivial = at least one field absent; "
                 "stream zone: HH:MM + zone text (name / +H / +HH / +HHMM / +HH:MM / NAME+h / +HHMM (NAME) / Z) x "
                 "tzinfos dict / callable / offset-callable / none x process TZ in %r, non-trivial = has a zone "
-                "text; stream fuzzy: filler + one rendered date + filler; arbitrary texts for the fuzzy "
-                "relations, non-trivial = accepted without fuzzy.  Distinct = distinct (stream, text, options)"
+                "text; stream fuzzy: filler + one rendered date + filler, where the filler is drawn from a FIXED list of "
+                "34 neutral words (coverage.fuzzy_filler_vocabulary) that contain none of the parser's trigger words (no "
+                "a/am/p/pm/at/on/and/of, no month or weekday names or abbreviations, no h/m/s, no ALL-CAPS word of <= 5 "
+                "letters, no digits): 'a sentence containing one date' is tested for neutral filler only; arbitrary texts "
+                "for the fuzzy relations, non-trivial = accepted without fuzzy.  Distinct = distinct (stream, text, options)"
                 % (TZ_SETTINGS,),
+        "fuzzy_filler_vocabulary": list(PC.FILLER),
+        "theorem_scope_notes": [
+            "C15_tz_cascade relates validate + _build_tzaware to spec_zone with posix_form = false ONLY: the 'GMT+h' sign "
+            "reversal is done by the scan (_parse rewrites the sign token), not by validate/_build_tzaware; it is proved for "
+            "the single text '10:00 GMT+h', h = 1..23, default options (C15_gmt_plus_h_is_behind); 'UTC+3', 'BRST+3', "
+            "'GMT-0', 'GMT+3:30' are differential-only (zone stream, posix forms)",
+            "C15_default_fill / C15_build_naive_refines_spec_fill start from the result record; 'fields absent from the "
+            "TEXT' is covered by C02's template theorems and the fill stream",
+            "spec_fill / spec_zone are decision tables written next to the code and share dict_get, call_get, tzoffset_ok, "
+            "tbl_utczone with the model; they are not derived from the documentation independently",
+            "the zone stream uses 9 (h, mi) pairs and 6 default dates (incl. both ends of the datetime range)"],
+        "minimum_stream_sizes": "each stream (fill, zone/<TZ> for every TZ setting, fuzzy-sentence, fuzzy-relations) must "
+                                "have evaluated at least one case, else the run is a violation",
         "exhaustive": False,
         "samples": samples[:14],
         "input_distribution": hist,
         "disagreements": stats,
         "model_correspondence_cases": len(all_cases) + sum(v for k, v in hist.items() if k.startswith("zone/")),
-        "differential_only": ["tz.tzlocal() beyond name matching (its tzname() enters the model and the spec as "
-                              "oracle bits computed from the real zone object)",
+        "differential_only": ["the local zone's tzname() enters the model and the spec as two oracle bits computed from the "
+                              "`time` module (time.tzname / timezone / altzone / localtime), not from dateutil's tz.tzlocal; "
+                              "user tzinfo objects and tzstr zones: bits read from the object handed to parse()",
                               "UnknownTimezoneWarning emission compared as a flag"],
         "guard_matcher_correspondence": {
             "F-C15-ampm": {
